@@ -318,6 +318,18 @@ def h_corr_fit(cx, T, pat, lo, hi):
     corr.prange = [lo, hi]
     out = corr.fit(lambda a, x: a[0] + 0 * x, silent=True)
     lib.eq_obs(cx, out[0], r, 'Corr.fit(prange) = plateau')
+    # an explicitly given range wins over a stored plateau range (fit and plateau by fit)
+    corr.prange = [0, 0] if S[0] is not None else [T - 1, T - 1]
+    try:
+        r2 = corr.plateau([lo, hi], method='fit')
+        out2 = corr.fit(lambda a, x: a[0] + 0 * x, [lo, hi], silent=True)
+    except core.Realize:
+        raise
+    except Exception as e:
+        cx.fail('explicit range with a stored prange raises', '%s: %s' % (type(e).__name__, e))
+        return
+    lib.eq_obs(cx, r2, r, 'plateau(range, fit) ignores a stored prange')
+    lib.eq_obs(cx, out2[0], r, 'Corr.fit(f, range) ignores a stored prange')
 
 
 HARNESSES = dict(gls=h_gls, corr_fit=h_corr_fit)
@@ -354,6 +366,11 @@ def jobs(tier, seed):
     for meth in ('migrad', 'Nelder-Mead', 'Powell'):
         S('line', [1.0, 2.0, 4.0], [E, E, F_], method=meth)
     S('line', [1.0, 2.0, 4.0], [E, E, F_], num_grad=True)
+    # numerical differentiation combined with the other options (each combination has its own code path for the error propagation)
+    S('line', [1.0, 2.0, 4.0], [E, E, E], num_grad=True, correlated=True)
+    S('line', [1.0, 2.0, 4.0], [E, E, E], num_grad=True, correlated='estimated')
+    S('line', [1.0, 2.0, 3.0], [E, F_, E], num_grad=True, priors={'0': ('obs', F_)})
+    S('line', [1.0, 2.0, 3.0], [E, E, E], num_grad=True, correlated=True, priors={'1': ('obs', F_)}, method='migrad')
     # priors: Obs / string, on subsets, list and dict form
     S('line', [1.0, 2.0, 3.0], [E, E, E], priors={'0': ('obs', F_)})
     S('line', [1.0, 2.0, 3.0], [E, E, E], priors={'1': ('obs', E)})
